@@ -225,39 +225,47 @@ func c02R1(c *Ctx, rule string) {
 		return
 	}
 	f := a.write
+	// edgeState: the abstract state on the edge b → b.Succs[k], given the state m at the end of b
+	edgeState := func(b *ssa.BasicBlock, k int, m uint8) uint8 {
+		iff, _ := b.Instrs[len(b.Instrs)-1].(*ssa.If)
+		out := m
+		if iff != nil && len(b.Succs) == 2 && a.condFresh(b) {
+			out = a.refine(m, iff.Cond, k == 0)
+			// a && / || materialised as φ(c, false): the branch outcome also fixes c, evaluated in a predecessor
+			// that (checked) does not touch the reorder state
+			for _, g := range shortCircuitGuards(iff.Cond, k == 0, iff, 0) {
+				if gi, ok := g.Cond.(ssa.Instruction); ok && gi.Block() != nil {
+					pure := true
+					for _, in2 := range gi.Block().Instrs {
+						if a.transfer(c02Inv, in2) != c02Inv {
+							pure = false
+						}
+					}
+					if pure && containsBlock(b.Preds, gi.Block()) {
+						out = a.refine(out, g.Cond, g.Pol)
+					}
+				}
+			}
+		}
+		return out
+	}
+	endState := func(b *ssa.BasicBlock, m uint8) uint8 {
+		for _, i := range b.Instrs {
+			m = a.transfer(m, i)
+		}
+		return m
+	}
 	in := map[*ssa.BasicBlock]uint8{f.Blocks[0]: c02Inv}
 	work := []*ssa.BasicBlock{f.Blocks[0]}
 	for len(work) > 0 {
 		b := work[0]
 		work = work[1:]
-		m := in[b]
-		for _, i := range b.Instrs {
-			m = a.transfer(m, i)
-		}
-		iff, _ := b.Instrs[len(b.Instrs)-1].(*ssa.If)
+		m := endState(b, in[b])
 		for k, s := range b.Succs {
 			if isRecoverBlock(s) {
 				continue
 			}
-			out := m
-			if iff != nil && len(b.Succs) == 2 && a.condFresh(b) {
-				out = a.refine(m, iff.Cond, k == 0)
-				// a && / || materialised as φ(c, false): the branch outcome also fixes c, evaluated in a predecessor
-				// that (checked) does not touch the reorder state
-				for _, g := range shortCircuitGuards(iff.Cond, k == 0, iff, 0) {
-					if gi, ok := g.Cond.(ssa.Instruction); ok && gi.Block() != nil {
-						pure := true
-						for _, in2 := range gi.Block().Instrs {
-							if a.transfer(c02Inv, in2) != c02Inv {
-								pure = false
-							}
-						}
-						if pure && containsBlock(b.Preds, gi.Block()) {
-							out = a.refine(out, g.Cond, g.Pol)
-						}
-					}
-				}
-			}
+			out := edgeState(b, k, m)
 			if in[s]|out != in[s] {
 				in[s] |= out
 				work = append(work, s)
@@ -266,25 +274,39 @@ func c02R1(c *Ctx, rule string) {
 	}
 	n := 0
 	for _, r := range returnsOf(f) {
-		m := in[r.Block()]
-		for _, i := range r.Block().Instrs {
-			if i == ssa.Instruction(r) {
-				break
+		// a return of a merged verdict (`return toBeClosed, nil` after `toBeClosed = true; break`) stands for one way
+		// out per incoming edge: each is judged with the state of its own edge
+		for _, rp := range retPointsOf(r) {
+			m := in[r.Block()]
+			where := ssa.Instruction(r)
+			if rp.At != ssa.Instruction(r) && rp.At.Block() != nil {
+				pb := rp.At.Block()
+				for k, s := range pb.Succs {
+					if s == r.Block() {
+						m = edgeState(pb, k, endState(pb, in[pb]))
+						where = rp.At
+					}
+				}
 			}
-			m = a.transfer(m, i)
+			for _, i := range r.Block().Instrs {
+				if i == ssa.Instruction(r) {
+					break
+				}
+				m = a.transfer(m, i)
+			}
+			closing := false
+			if b, ok := boolConst(rp.Vals[0]); ok && b {
+				closing = true
+			}
+			construct := "return at " + strings.TrimPrefix(c.at(where), "internal/multiplex/")
+			if closing {
+				c.OK(rule, construct+" (close verdict)", c.at(where), "stream is being closed; invariant not required")
+				continue
+			}
+			n++
+			c.Check(m&c02Viol == 0, rule, construct, c.at(where), fmt.Sprintf("abstract state %04b ⊆ I: nothing deliverable stays parked", m),
+				fmt.Sprintf("abstract state %04b admits (heap non-empty ∧ head == owed seq): a frame that is next in line can stay parked forever (e.g. fast path taken while frames are parked)", m))
 		}
-		closing := false
-		if b, ok := boolConst(resultValue(r, 0)); ok && b {
-			closing = true
-		}
-		construct := "return at " + strings.TrimPrefix(c.at(r), "internal/multiplex/")
-		if closing {
-			c.OK(rule, construct+" (close verdict)", c.at(r), "stream is being closed; invariant not required")
-			continue
-		}
-		n++
-		c.Check(m&c02Viol == 0, rule, construct, c.at(r), fmt.Sprintf("abstract state %04b ⊆ I: nothing deliverable stays parked", m),
-			fmt.Sprintf("abstract state %04b admits (heap non-empty ∧ head == owed seq): a frame that is next in line can stay parked forever (e.g. fast path taken while frames are parked)", m))
 	}
 	if n == 0 {
 		c.Undecided(rule, "non-closing returns of streamBuffer.Write", c.atFn(f), "none found")
@@ -293,8 +315,12 @@ func c02R1(c *Ctx, rule string) {
 
 // inTurnAtom: among the guards of instruction i, is there `X.Seq == sb.nextRecvSeq` for frame X (param) or sh[0] (popped)?
 func (a *c02Anchors) inTurnFor(i ssa.Instruction, frame ssa.Value) (bool, string) {
+	return a.inTurnAtoms(AtomsAt(i), frame)
+}
+
+func (a *c02Anchors) inTurnAtoms(atoms []Atom, frame ssa.Value) (bool, string) {
 	f := a.write
-	for _, at := range AtomsAt(i) {
+	for _, at := range atoms {
 		if at.Kind != "cmp" || at.Op != token.EQL {
 			continue
 		}
@@ -705,49 +731,52 @@ func c02R5(c *Ctx, rule string) {
 		c.Check(stale, rule, "frames are refused only when stale: error return at "+strings.TrimPrefix(c.at(r), "internal/multiplex/"), c.at(r), "behind f.Seq < owed",
 			"this error return is not (only) behind 'f.Seq < owed': a frame that is not stale can be refused — its bytes are lost and everything after it stays parked")
 	}
-	// close verdicts
+	// close verdicts (a return of a merged verdict is judged per incoming way, retpoints.go)
 	nClose := 0
-	for _, r := range returnsOf(f) {
-		b, ok := boolConst(resultValue(r, 0))
-		if !ok || !b {
-			if !ok {
-				c.Undecided(rule, "return value at "+c.at(r), c.at(r), "close verdict is not a constant; cannot classify")
+	for _, r0 := range returnsOf(f) {
+		for _, rp := range retPointsOf(r0) {
+			r := rp.At
+			b, ok := boolConst(rp.Vals[0])
+			if !ok || !b {
+				if !ok {
+					c.Undecided(rule, "return value at "+c.at(r), c.at(r), "close verdict is not a constant; cannot classify")
+				}
+				continue
 			}
-			continue
-		}
-		nClose++
-		// find the frame whose Closing flag is tested (≠ closingNothing) among the guards
-		var fr ssa.Value
-		for _, at := range AtomsAt(r) {
-			if at.Kind == "cmp" && at.Op == token.NEQ {
-				for _, pair := range [][2]ssa.Value{{at.X, at.Y}, {at.Y, at.X}} {
-					if k, isK := intConst(pair[1]); isK && k == 0 {
-						if x := a.frameOfField(pair[0], a.closing); x != nil {
-							fr = x
+			nClose++
+			// find the frame whose Closing flag is tested (≠ closingNothing) among the guards
+			var fr ssa.Value
+			for _, at := range rp.Atoms {
+				if at.Kind == "cmp" && at.Op == token.NEQ {
+					for _, pair := range [][2]ssa.Value{{at.X, at.Y}, {at.Y, at.X}} {
+						if k, isK := intConst(pair[1]); isK && k == 0 {
+							if x := a.frameOfField(pair[0], a.closing); x != nil {
+								fr = x
+							}
 						}
 					}
 				}
 			}
-		}
-		construct := "close verdict at " + strings.TrimPrefix(c.at(r), "internal/multiplex/")
-		if fr == nil {
-			c.Bad(rule, construct, c.at(r), "close verdict not conditioned on a frame's closing flag")
-			continue
-		}
-		inTurn, at := a.inTurnFor(r, fr)
-		if !inTurn {
-			if ph, isPhi := fr.(*ssa.Phi); isPhi {
-				inTurn = true
-				for _, e := range ph.Edges {
-					if o, s := a.inTurnFor(r, e); !o {
-						inTurn = false
-					} else {
-						at = s
+			construct := "close verdict at " + strings.TrimPrefix(c.at(r), "internal/multiplex/")
+			if fr == nil {
+				c.Bad(rule, construct, c.at(r), "close verdict not conditioned on a frame's closing flag")
+				continue
+			}
+			inTurn, at := a.inTurnAtoms(rp.Atoms, fr)
+			if !inTurn {
+				if ph, isPhi := fr.(*ssa.Phi); isPhi {
+					inTurn = true
+					for _, e := range ph.Edges {
+						if o, s := a.inTurnAtoms(rp.Atoms, e); !o {
+							inTurn = false
+						} else {
+							at = s
+						}
 					}
 				}
 			}
+			c.Check(inTurn, rule, construct, c.at(r), "closing frame is in turn: "+at, "the close takes effect for a frame that is not next in line: data with lower numbers still in flight is lost")
 		}
-		c.Check(inTurn, rule, construct, c.at(r), "closing frame is in turn: "+at, "the close takes effect for a frame that is not next in line: data with lower numbers still in flight is lost")
 	}
 	if nClose == 0 {
 		c.Undecided(rule, "close verdicts of streamBuffer.Write", c.atFn(f), "no 'return true' found")
